@@ -79,6 +79,19 @@ func oracleC03B(p *Plan, res *Result) *common.Fail {
 	if len(stray) > 0 {
 		return failTrace(evs, stray[0], "stray-request", "a tunnelling request left the socket at %s although no Send was in progress", ms(evs[stray[0]].T))
 	}
+	// a Send that begins at the very instant the client takes a connect response: which of the two the client does first
+	// is not determined (on the fake clock both happen "at once"); such a history is not judged
+	connAt := map[int64]bool{}
+	for _, e := range evs {
+		if e.K == "dlv" && e.Svc == "ConnRes" {
+			connAt[e.T] = true
+		}
+	}
+	for _, s := range sends {
+		if connAt[s.t0] {
+			return nil
+		}
+	}
 	sn, snEpoch := 0, -1
 	for _, s := range sends {
 		if s.i1 < 0 {
